@@ -4,7 +4,6 @@ package c16
 import (
 	"context"
 	"fmt"
-	"sort"
 	"strings"
 	"sync"
 	"testing"
@@ -12,6 +11,7 @@ import (
 
 	"github.com/cloudwego/eino/callbacks"
 	"github.com/cloudwego/eino/compose"
+	"github.com/cloudwego/eino/schema"
 
 	"verifharness/internal/gspec"
 	"verifharness/internal/mon"
@@ -24,7 +24,7 @@ func genOpts(r *mon.Rand, cfg mon.Config, mode gspec.Mode) gspec.GenOpts {
 		Mode: mode, MinNodes: 2, MaxNodes: cfg.Pick(6, 8),
 		Branches: 0.3, Multi: 0.5, AllowEmpty: 0,
 		Nest: 3, NestProb: 0.25, State: 0.1,
-		Streamy: false, Keys: 0.1, Renames: 0.1, Passthrough: 0.2, Wide: 0.2,
+		Streamy: true, Keys: 0.3, Renames: 0.1, Passthrough: 0.2, Wide: 0.2,
 		CtrlOnly: 0.2, DataOnly: 0.3, Fields: 0.4,
 		SubModes: []gspec.Mode{gspec.DAG, gspec.Workflow},
 	}
@@ -267,6 +267,13 @@ func doCall(ctx context.Context, r compose.Runnable[gspec.V, gspec.V], in gspec.
 	return runResult{out: out, execs: execs}
 }
 
+func doCallPara(ctx context.Context, r compose.Runnable[gspec.V, gspec.V], para string, in gspec.V, opts []compose.Option) runResult {
+	ctl := gspec.NewCtl("c")
+	out := gspec.Call(gspec.WithCtl(ctx, ctl), r, para, in, 0, -1, opts...)
+	execs, _, _, _ := ctl.Log.Snapshot()
+	return runResult{out: out, execs: execs}
+}
+
 func judge(rep *mon.Reporter, spec *gspec.GraphSpec, in gspec.V, os []optSpec, res runResult, how string) bool {
 	exp, mustFail, why := route(spec, os)
 	wit := map[string]any{"spec": spec, "input": in, "options": os, "how": how}
@@ -349,9 +356,11 @@ func specCase(ctx context.Context, rep *mon.Reporter, rng *mon.Rand, cfg mon.Con
 		for _, o := range os {
 			opts = append(opts, toOption(o, nil))
 		}
-		res := doCall(ctx, r, in, opts)
+		para := []string{"I", "S", "C", "T"}[c%4]
+		res := doCallPara(ctx, r, para, in, opts)
 		rep.AddEvaluations(1)
-		if !judge(rep, spec, in, os, res, "sequential") {
+		rep.Count("sequential_calls_"+para, 1)
+		if !judge(rep, spec, in, os, res, "sequential/"+para) {
 			return
 		}
 		nested := false
@@ -425,47 +434,96 @@ func sharedBaseCase(ctx context.Context, rep *mon.Reporter, rng *mon.Rand, spec 
 
 // handlerCase: a callback handler designated to one node must fire for that node only.
 func handlerCase(ctx context.Context, rep *mon.Reporter, rng *mon.Rand, spec *gspec.GraphSpec, r compose.Runnable[gspec.V, gspec.V], inv []nodeInfo, in gspec.V) {
-	var tops []nodeInfo
+	// one WithCallbacks option designated to 1-3 nodes at any depth, in PRNG order (a nested path may
+	// come before a direct node key): the handler fires for exactly these nodes, once per execution
+	var cands []nodeInfo
 	for _, n := range inv {
-		if len(n.path) == 1 && n.kind != gspec.Passthrough && n.kind != gspec.Sub {
-			tops = append(tops, n)
+		if n.kind != gspec.Passthrough && n.kind != gspec.Sub {
+			cands = append(cands, n)
 		}
 	}
-	if len(tops) == 0 {
+	if len(cands) == 0 {
 		return
 	}
-	target := tops[rng.Intn(len(tops))].path[0]
+	k := 1 + rng.Intn(3)
+	if k > len(cands) {
+		k = len(cands)
+	}
+	var targets []nodeInfo
+	for _, i := range rng.Perm(len(cands))[:k] {
+		targets = append(targets, cands[i])
+	}
 	var mu sync.Mutex
-	var fired []string
+	fired := map[string]int{}
 	h := callbacks.NewHandlerBuilder().OnStartFn(func(ctx context.Context, info *callbacks.RunInfo, _ callbacks.CallbackInput) context.Context {
 		mu.Lock()
-		fired = append(fired, info.Name)
+		fired[info.Name]++
+		mu.Unlock()
+		return ctx
+	}).OnStartWithStreamInputFn(func(ctx context.Context, info *callbacks.RunInfo, in *schema.StreamReader[callbacks.CallbackInput]) context.Context {
+		in.Close()
+		mu.Lock()
+		fired[info.Name]++
 		mu.Unlock()
 		return ctx
 	}).Build()
-	res := doCall(ctx, r, in, []compose.Option{compose.WithCallbacks(h).DesignateNode(target)})
+	opt := compose.WithCallbacks(h)
+	allTop := true
+	var paths []*compose.NodePath
+	var shown [][]string
+	for _, t := range targets {
+		if len(t.path) > 1 {
+			allTop = false
+		}
+		paths = append(paths, compose.NewNodePath(t.path...))
+		shown = append(shown, t.path)
+	}
+	if allTop && rng.Bool() {
+		var keys []string
+		for _, t := range targets {
+			keys = append(keys, t.path[0])
+		}
+		opt = opt.DesignateNode(keys...)
+	} else {
+		opt = opt.DesignateNodeWithPath(paths...)
+	}
+	para := []string{"I", "S", "C", "T"}[rng.Intn(4)]
+	res := doCallPara(ctx, r, para, in, []compose.Option{opt})
 	rep.AddEvaluations(1)
 	rep.Count("designated_handler_calls", 1)
+	if len(targets) > 1 {
+		rep.Count("designated_handler_calls_with_several_paths", 1)
+	}
+	wit := map[string]any{"spec": spec, "targets": shown, "paradigm": para}
 	if res.out.Failed() {
+		rep.Violation(ID+"/designated-callback/run-failed", fmt.Sprintf("a call with one callbacks option designated to the existing nodes %v failed: %v", shown, res.out.Err), wit)
 		return
 	}
-	ran := false
-	for _, e := range res.execs {
-		if e.Path == target {
-			ran = true
+	want := map[string]int{}
+	for _, t := range targets {
+		for _, e := range res.execs {
+			if e.Path == strings.Join(t.path, "/") {
+				want[t.path[len(t.path)-1]]++
+			}
 		}
 	}
 	mu.Lock()
 	defer mu.Unlock()
-	sort.Strings(fired)
-	for _, f := range fired {
-		if f != target {
-			rep.Violation(ID+"/designated-callback-fired-elsewhere", fmt.Sprintf("handler designated to %s fired for %v", target, fired), map[string]any{"spec": spec, "target": target})
+	for f := range fired {
+		if _, ok := want[f]; !ok {
+			rep.Violation(ID+"/designated-callback-fired-elsewhere", fmt.Sprintf("handler designated to %v fired for %v", shown, fired), wit)
 			return
 		}
 	}
-	if ran && len(fired) == 0 {
-		rep.Violation(ID+"/designated-callback-not-fired", fmt.Sprintf("node %s executed but its designated handler never fired", target), map[string]any{"spec": spec, "target": target})
+	for n, w := range want {
+		if fired[n] != w {
+			cl := "designated-callback-not-fired"
+			if fired[n] > w {
+				cl = "designated-callback-fired-too-often"
+			}
+			rep.Violation(ID+"/"+cl, fmt.Sprintf("handler designated to %v (paradigm %s): node %s executed %d time(s), its start callback fired %d time(s); all firings: %v", shown, para, n, w, fired[n], fired), wit)
+			return
+		}
 	}
 }
 
